@@ -3,7 +3,7 @@
 Operator expressions travel in prefix form, one token per item:
   E ::= slr M k x1 y1 … xk yk | reg M r | nrm M r | lap M r b v | con M b | pol M v
       | neg E | add E E | sub E E | addcsr E M | subcsr E M | mul E r | T E | ldot M E | rdot E M
-      | astype E | d2u E | b2d E | b2u E | normalize E
+      | astype (float64|float32|int) E | rmul r E | d2u E | b2d E | b2u E | normalize E
   M ::= nRow nCol rows      (rows: `;`-separated rows of `,`-separated rationals, `-` when a dimension is 0)
   v ::= rationals separated by `,` (`-` = empty),  r ::= rational,  b ::= 0 | 1
 -/
@@ -90,7 +90,15 @@ def expr? : Nat → List String → Option (OpExpr × List String)
       match r with
       | n :: m :: rows :: r => some (.rightDot e (← mat? n m rows), r)
       | _ => none
-    | "astype" :: ts => do let (e, r) ← expr? fuel ts; some (.astype e, r)
+    | "astype" :: dt :: ts => do
+      let d ← match dt with
+        | "float64" => some CastTo.float64 | "float32" => some CastTo.float32 | "int" => some CastTo.int | _ => none
+      let (e, r) ← expr? fuel ts
+      some (.astype e d, r)
+    | "rmul" :: c :: ts => do
+      let c ← rat? c
+      let (e, r) ← expr? fuel ts
+      some (.rmul c e, r)
     | "d2u" :: ts => do let (e, r) ← expr? fuel ts; some (.d2u e, r)
     | "b2d" :: ts => do let (e, r) ← expr? fuel ts; some (.b2d e, r)
     | "b2u" :: ts => do let (e, r) ← expr? fuel ts; some (.b2u e, r)
@@ -128,6 +136,17 @@ def base : Handler
         match e.eval with
         | .error err => some (showErr err)
         | .ok o => match o.dot v with
+          | .error err => some (showErr err)
+          | .ok y => some ("ok " ++ showRatList y)
+      | _ => none
+  | "c15.hdot", ts => ans do
+      let (e, r) ← parseExpr ts
+      match r with
+      | [v] =>
+        let v ← ratList? v
+        match e.eval with
+        | .error err => some (showErr err)
+        | .ok o => match o.hdot v with
           | .error err => some (showErr err)
           | .ok y => some ("ok " ++ showRatList y)
       | _ => none
@@ -376,6 +395,14 @@ def base : Handler
       some (holds (LaplacianSpec (← rat? tol) (← mat? n m rows) (← mat? on om orows)) "LaplacianSpec")
   | "c15.spec_pinv", [w, out, tol] => ans do
       some (holds (PinvSpec (← rat? tol) (← ratList? w) (← ratList? out)) "PinvSpec")
+  | "c15.spec_d2u", [tol, n, m, rows, w, on, om, orows] => ans do
+      some (holds (D2USpec (← rat? tol) (← mat? n m rows) (← bool? w) (← mat? on om orows)) "D2USpec")
+  | "c15.spec_b2d", [tol, n, m, rows, on, om, orows] => ans do
+      some (holds (B2DSpec (← rat? tol) (← mat? n m rows) (← mat? on om orows)) "B2DSpec")
+  | "c15.spec_b2u", [tol, n, m, rows, on, om, orows] => ans do
+      some (holds (B2USpec (← rat? tol) (← mat? n m rows) (← mat? on om orows)) "B2USpec")
+  | "c15.spec_tfidf", [tol, n, m, rows, tbl, on, om, orows] => ans do
+      some (holds (TfidfSpec (← rat? tol) (← mat? n m rows) (← ratList? tbl) (← mat? on om orows)) "TfidfSpec")
   | "c15.spec_neighbors", [n, m, ip, ix, dt, node, tr, out] => ans do
       let c ← csrOf? n m ip ix dt
       let d := if (← bool? tr) then (csrDense c).transpose else csrDense c
